@@ -258,6 +258,8 @@ static inline ApiObs api_execute(const ApiCase &a, int fill) {
   }
   char *raw = (char *)malloc(objsize + 32);
   char *objp = raw + a.align;
+  memset(raw, 0xC5, objsize + 32);  // canaries in the slack on both sides (checked after the call: libc routines that
+                                    // are not intercepted, e.g. explicit_bzero, write through ASan's manual poisoning unnoticed)
   for (size_t i = 0; i < objsize; i++) objp[i] = (char)fill_byte(fill, i);
   VF_POISON(raw, (size_t)a.align);
   VF_POISON(objp + objsize, 32 - (size_t)a.align);
@@ -381,6 +383,14 @@ static inline ApiObs api_execute(const ApiCase &a, int fill) {
     free(st);
   }
   VF_UNPOISON(raw, objsize + 32);
+  for (size_t i = 0; i < objsize + 32; i++) {
+    if (raw + i >= objp && raw + i < objp + objsize) continue;
+    if ((unsigned char)raw[i] != 0xC5) {
+      long off = (long)i - (long)a.align;
+      o.problem = "a byte outside the caller's data object was modified (offset " + std::to_string(off) + " relative to the object of " + std::to_string(objsize) + " bytes)";
+      break;
+    }
+  }
   free(raw);
   return o;
 }
